@@ -38,6 +38,10 @@ EXPLANATION = (
     ' accessors of Path (current_point, first_point, z_point, smooth_point) to test a stored end point against'
     ' None before converting it with Point(): a closepath with nothing before it is stored as Close(None,'
     ' None).'
+    ' R09.3 contradiction clauses: a None test on a local whose only bindings are constructor calls of module'
+    ' classes is dead (the check it stands for is not made; Point(None) is a point with None coordinates), and'
+    ' Point(self.<Maybe accessor>) is reported; since the expected count on the tree is zero the recogniser is'
+    ' run on a built-in example on every run.'
 )
 TECHNIQUE = (
     "static analysis (no execution): nullness of lexer operands at builder calls (value tracking + token-language implications decided on regex automata); tokenizer loop summaries per token alternative (progress); ValueError-only raise lint; callee nullness summaries"
@@ -93,7 +97,14 @@ def close_resolution(ctx):
                 continue
             var = s.test.left.id
             asg = [a for a in s.body if isinstance(a, ast.Assign) and isinstance(a.targets[0], ast.Name) and a.targets[0].id == var]
+            if len(asg) != 1:
+                # the close point may be bound to another name (which of the segment's points it becomes is C01's question)
+                asg = [a for a in s.body if isinstance(a, ast.Assign) and len(a.targets) == 1 and isinstance(a.targets[0], ast.Name) and
+                       ((isinstance(a.value, ast.Attribute) and isinstance(a.value.value, ast.Name) and a.value.value.id == "self" and a.value.attr in cls.getters) or
+                        (isinstance(a.value, ast.Call) and isinstance(a.value.func, ast.Attribute) and isinstance(a.value.func.value, ast.Name) and a.value.func.value.id == "self"
+                         and a.value.func.attr in cls.methods and not a.value.args))][:1]
             ctx.need(len(asg) == 1, "R09.7", "Path.%s: replacement of the 'z' operand %s not found" % (bname, var))
+            var = asg[0].targets[0].id
             v = asg[0].value
             n += 1
             ok = False
@@ -259,8 +270,9 @@ def current_point(ctx):
         ctx.need(g is not None, "R09.3", "Path.%s not found" % p)
         ctx.ob("R09.3", "Path.%s is Maybe" % p, True, "returns None on some path: %s" % returns_maybe(g), g.lineno, sample=False)
     # The accessors read the end points of STORED segments.  Path.closed stores Close(current_point, z_point) with both
-    # operands Maybe ("z" as the first command), so a stored end point may be None: converting it with Point(...) raises
-    # TypeError unless a None test of that very expression dominates the conversion.
+    # operands Maybe ("z" as the first command), so a stored end point may be None: Point(None) is a "point" with None
+    # coordinates (the builders' `is None` guards no longer see it, the next arithmetic raises TypeError) unless a None test
+    # of that very expression dominates the conversion.
     from ..flow import dominated as _dom, stored_endpoint
 
     closed = ctx.fn("Path.closed", "R09.3")
@@ -291,8 +303,41 @@ def current_point(ctx):
 
                 ok = not stores_maybe or _dom(n, g, atom_test)
                 ctx.ob("R09.3", "Path.%s[Point(%s)]" % (pname, chain), ok, "stored end points may be None: %s; conversion %s" % (stores_maybe, "guarded" if ok else "not guarded by a None test"), n.lineno,
-                       "`z` as the first command stores Close(None, None); converting its end point raises TypeError from the accessor, i.e. from every later command of the data (\"z l 5 5\")")
+                       "`z` as the first command stores Close(None, None); converting its end point gives a point with None coordinates, which passes the builders' None guards and raises TypeError in the next command of the data (\"z l 5 5\")")
     ctx.need(nconv >= 1, "R09.3", "accessors converting stored end points")
+    # Contradictions (a stated belief the code cannot have): Point(x) never returns None - Point(None) is the "point"
+    # (None, None) - so a None test on a local that only ever holds a freshly constructed object is dead, and the check it
+    # was meant to make (is there a current point / a subpath start?) is not made.  Likewise Point(<Maybe accessor>) without
+    # a None test of the accessor's value launders a missing point into a point with None coordinates.
+    from ..excflow import _binds
+
+    n_dead = 0
+    for mname, mfn in sorted(list(cls.methods.items()) + [("%s:getter" % k, v) for k, v in cls.getters.items()]):
+        for test in ast.walk(mfn):
+            x = PL.none_test(test) if isinstance(test, ast.Compare) else None
+            if x is None:
+                continue
+            binds = _binds(mfn, x)
+            params = [a.arg for a in mfn.args.args + mfn.args.kwonlyargs]
+            if not binds or x in params:
+                continue
+            fresh = all(isinstance(b, ast.Assign) and len(b.targets) == 1 and isinstance(b.targets[0], ast.Name) and isinstance(b.value, ast.Call)
+                        and isinstance(b.value.func, ast.Name) and b.value.func.id in m.classes for b in binds)
+            if fresh:
+                n_dead += 1
+                ctx.ob("R09.3", "Path.%s[None test of %s]" % (mname, x), False, "%s is only ever bound to %s" % (x, "; ".join(ast.unparse(b.value)[:40] for b in binds)), test.lineno,
+                       "a constructor call never yields None: this guard is dead, so the missing current point / subpath start it was written for goes undetected (Point(None) is a point with None coordinates)")
+        for c in ast.walk(mfn):
+            if isinstance(c, ast.Call) and call_name(c) == "Point" and len(c.args) == 1:
+                a = c.args[0]
+                if isinstance(a, ast.Attribute) and isinstance(a.value, ast.Name) and a.value.id == "self" and a.attr in MAYBE_PROPS and returns_maybe(cls.getters[a.attr], cls):
+                    ctx.ob("R09.3", "Path.%s[Point(self.%s)]" % (mname, a.attr), False, "", c.lineno,
+                           "the accessor yields None when there is no such point; Point(None) turns that into a point with None coordinates that no later None test can see")
+    ctx.ob("R09.3", "Path[no None test of a freshly constructed object]", True, "%d dead guards" % n_dead, 0, sample=False)
+    # self-test of the pattern on a fixed example (the expected count on the tree is zero, so the recogniser proves it can match)
+    probe = ast.parse("def f(self):\n    p = Point(self.z_point)\n    if p is None:\n        raise ValueError\n    return p\n").body[0]
+    pb = _binds(probe, "p")
+    ctx.need(any(PL.none_test(t) == "p" for t in ast.walk(probe) if isinstance(t, ast.Compare)) and len(pb) == 1, "R09.3", "dead-guard recogniser does not match its own example")
     req = Req(m)
     for bname in BUILDERS:
         fn = ctx.fn("Path.%s" % bname, "R09.3")
